@@ -800,6 +800,21 @@ impl TransactionBuilder {
             ));
         }
         let col_input_value: Value = collateral.total_value()?;
+        // Value::checked_sub only checks the coin, asset quantities are clamped at zero:
+        // the return output must not hold more of any asset than the collateral inputs do
+        let return_assets = collateral_return
+            .amount()
+            .multiasset()
+            .unwrap_or(MultiAsset::new());
+        let input_assets = col_input_value.multiasset().unwrap_or(MultiAsset::new());
+        match return_assets.partial_cmp(&input_assets) {
+            Some(std::cmp::Ordering::Less) | Some(std::cmp::Ordering::Equal) => {}
+            _ => {
+                return Err(JsError::from_str(
+                    "Collateral return cannot contain assets that are not covered by the collateral inputs",
+                ))
+            }
+        }
         let total_col: Value = col_input_value.checked_sub(&collateral_return.amount())?;
         if total_col.multiasset.is_some() {
             return Err(JsError::from_str(
